@@ -18,7 +18,7 @@ def op_term(op):
 def knum(s):
     """harness key "k<n>" -> n; anything else (e.g. a key the wrapper failed to prefix) -> a key no model state holds"""
     import re
-    m = re.fullmatch(r"k(\d+)(~x*)?", s)
+    m = re.fullmatch(r"k(\d+)(~x*|\.cGF5bG9hZA\.[A-Za-z]+\d)?", s)
     return int(m.group(1)) if m else 999999
 
 
